@@ -44,6 +44,7 @@ Definition guard_coll_prim (s : st) (sd : side) (p : prim) : bool :=
   | PInsert sd' o _ v => side_eqb sd sd' && negb (o =? 0) && negb (v =? 0) && negb (memb v (coll_of s sd o))
   | PRemove sd' o v => side_eqb sd sd' && negb (o =? 0) && negb (v =? 0)
   | PPop sd' o _ | PDelItem sd' o _ => side_eqb sd sd' && negb (o =? 0)
+  | PDelColl sd' o => side_eqb sd sd' && negb (o =? 0)
   | PSetItem sd' o i v =>
       side_eqb sd sd' && negb (o =? 0) && negb (v =? 0) &&
       (negb (memb v (coll_of s sd o)) ||
@@ -63,7 +64,7 @@ Definition guard_m2m (s : st) (p : prim) : bool :=
   match p with
   | PSet _ _ _ | PDel _ _ => false
   | PAppend sd _ _ | PRemove sd _ _ | PInsert sd _ _ _ | PPop sd _ _ | PDelItem sd _ _
-  | PSetItem sd _ _ _ | PReplace sd _ _ => guard_coll_prim s sd p
+  | PSetItem sd _ _ _ | PReplace sd _ _ | PDelColl sd _ => guard_coll_prim s sd p
   end.
 
 (* running a sequence of primitives while checking the guard before each of them *)
